@@ -45,6 +45,11 @@ CHECKS = {
    technique="TLA+ string-level specification of the lookup path builders and of the containment predicate (Paths.tla); TLC enumerates module names as token sequences; the real builders' outputs are recorded and TLC evaluates Contained on each real output (Trace_Paths.tla)",
    text="TLC proves on the specified builders that every produced path is contained (or no path is produced) for every name of up to MaxTok tokens over an alphabet with both separators, '.', '..', ':', drive letters and extensions; the harness gives each name (and seeded hostile names) to the real breakpad_sym / lookup(kind) / code-info / extra-debuginfo / binary / mozilla-CAB builders, and TLC evaluates the containment predicate on the real strings and compares them with the documented layout (difference = drift).",
    note="Trusted: TLC, Paths.tla (string functions on TLC strings), record_paths.rs. Joining onto directories/URLs is not executed here (http.rs join sites are observed by C16's file-system scan). A fix: commit (78a433e) repaired the unsafe-leaf classes."),
+ "C12": dict(
+   level="model_checking", design_ref="DESIGN.md section 5 'C12'",
+   technique="TLA+ poll-granular model of Symbolizer::get_symbols over an async mutex per module key (SymbolCache.tla) model-checked by TLC (AtMostOnce, SameOutcome, Counters, Progressive, LockSane) over all poll/open interleavings incl. spurious polls; every complete bounded behaviour replayed poll-exactly on the real Symbolizer; free-running executors summarised and judged by TLC (Trace_SymbolCache.tla)",
+   text="All interleavings of three concurrent tasks (1-3 lookups each over 1-3 module keys, suppliers that suspend 0-3 times and answer Ok/NotFound/ParseError/LoadError) are explored exhaustively; a variant that drops the lock across the supplier await is required to violate AtMostOnce (vacuity guard). Each complete behaviour is executed on the real Symbolizer by a hand-written executor that polls exactly the named task, with pending_stats and per-task observations compared after every step and supplier call counts, observed outcomes (each requester must see its own module's symbols) and counters at the end. Keys differ in exactly one component of the module identity.",
+   note="Trusted: TLC, SymbolCache.tla, the executor / gated mock supplier in replay_symcache.rs. Cancellation excluded (as in the statement). Thread-level interleavings inside tokio are sampled only."),
 }
 
 NA_DEFAULT = "check not built yet (work in progress; DESIGN.md section 5 has the planned specification)"
